@@ -186,6 +186,9 @@ func garbage(r *kit.Rng, donors []string) (string, string) {
 		return sb.String(), "token-soup"
 	default: // deep nesting / long runs
 		k := 1 + r.Intn(3000)
+		if r.Chance(1, 12) { // deep enough to exhaust the stack of a recursive descent (C16-F17)
+			k = 150000 + r.Intn(100000)
+		}
 		switch r.Intn(4) {
 		case 0:
 			return "APPLICATION a(); WORKSPACE W ( TABLE T INHERITS sys.CDoc " + strings.Repeat("(", k), "open-parens"
